@@ -5,6 +5,14 @@
 //!      weights, `wlen` = length of the vertex-weight slice, `-` = `None`)
 //! out: `ok <cut before> <cut after> | <ids>` (cuts as `Topology::edge_cut` of the view
 //!      reports them) | `panic file:line: message`
+//!
+//! op:  `klt <topo> <max_imbalance|-> <max_passes|-> <max_flips|-> <max_bad> <wn> <vertex weights…>
+//!       <n> <ids…> <rows> {<deg> {<j> <w>}…}…` – every field of the algorithm struct, the vertex
+//!      weights and the *type* of the topology are part of the input: `topo` = `csv` (CsMatView),
+//!      `csr` (&CsMatView), `cus` / `cusr` (a user-defined `Topology` by value / by reference whose
+//!      neighbour lists come in exactly the order of the op: shuffled, descending, …),
+//!      `g2:W:H` / `g2r:W:H` (`coupe::Grid<2>` / `&Grid<2>`), `g3:W:H:D` / `g3r:W:H:D`;
+//!      `max_imbalance` = 16 hex digits of the f64; vertex weights are integers.  Same output line.
 
 use crate::common::*;
 use coupe::sprs::CsMat;
@@ -470,6 +478,7 @@ pub fn generate(ctx: &mut Ctx) {
     }
 
     generate_large(ctx);
+    generate_topologies(ctx);
 }
 
 // ------------------------------------------------------------------ large / corner stream
@@ -838,6 +847,10 @@ pub fn run_op(ctx: &mut Ctx, op: &str) {
     if ctx.hang_limit_reached() {
         return;
     }
+    if op.starts_with("klt ") {
+        run_op_t(ctx, op);
+        return;
+    }
     let Some(c) = parse_op(op) else {
         ctx.record(op.to_string(), "bad-op".into(), false);
         return;
@@ -948,4 +961,744 @@ pub fn run_op(ctx: &mut Ctx, op: &str) {
     if let Some((sig, what)) = verdict {
         ctx.fail(idx, sig, what);
     }
+}
+
+// ------------------------------------------------------------------ topology types x all fields
+//
+// The `kl`/`klx` streams call KernighanLin through `CsMatView` with unit vertex weights and
+// `max_imbalance_per_flip: None`.  The `klt` stream makes the remaining inputs of the call part
+// of the case: the field `max_imbalance_per_flip` (None, 0, small, large, infinite), the vertex
+// weights (uniform or not; pairs that differ by more than the limit), and the TYPE of the
+// topology the same graph is handed over in (sprs view by value / by reference, coupe's Grid<2> /
+// Grid<3> by value / by reference, a user-defined topology whose neighbour lists are ascending,
+// descending or shuffled).  The property quantifies over graphs, partitions and limits only: none
+// of these may change the verdict of the oracle (part sizes, cut not larger).
+
+#[derive(Clone, Debug, PartialEq)]
+enum Topo {
+    CsView,
+    CsRef,
+    /// user-defined topology (by reference?)
+    Custom(bool),
+    Grid2(usize, usize, bool),
+    Grid3(usize, usize, usize, bool),
+}
+
+impl Topo {
+    fn name(&self) -> String {
+        match *self {
+            Topo::CsView => "csv".into(),
+            Topo::CsRef => "csr".into(),
+            Topo::Custom(false) => "cus".into(),
+            Topo::Custom(true) => "cusr".into(),
+            Topo::Grid2(w, h, r) => format!("g2{}:{}:{}", if r { "r" } else { "" }, w, h),
+            Topo::Grid3(w, h, d, r) => format!("g3{}:{}:{}:{}", if r { "r" } else { "" }, w, h, d),
+        }
+    }
+    fn kind(&self) -> &'static str {
+        match *self {
+            Topo::CsView => "CsMatView",
+            Topo::CsRef => "&CsMatView",
+            Topo::Custom(false) => "user-defined",
+            Topo::Custom(true) => "&user-defined",
+            Topo::Grid2(_, _, false) => "Grid<2>",
+            Topo::Grid2(_, _, true) => "&Grid<2>",
+            Topo::Grid3(_, _, _, false) => "Grid<3>",
+            Topo::Grid3(_, _, _, true) => "&Grid<3>",
+        }
+    }
+    fn parse(t: &str) -> Option<Topo> {
+        let parts: Vec<&str> = t.split(':').collect();
+        let dims: Vec<usize> = parts[1..].iter().map(|d| d.parse().ok()).collect::<Option<_>>()?;
+        if dims.iter().any(|&d| d == 0 || d > 1 << 16) {
+            return None;
+        }
+        match (parts[0], dims.len()) {
+            ("csv", 0) => Some(Topo::CsView),
+            ("csr", 0) => Some(Topo::CsRef),
+            ("cus", 0) => Some(Topo::Custom(false)),
+            ("cusr", 0) => Some(Topo::Custom(true)),
+            ("g2", 2) => Some(Topo::Grid2(dims[0], dims[1], false)),
+            ("g2r", 2) => Some(Topo::Grid2(dims[0], dims[1], true)),
+            ("g3", 3) => Some(Topo::Grid3(dims[0], dims[1], dims[2], false)),
+            ("g3r", 3) => Some(Topo::Grid3(dims[0], dims[1], dims[2], true)),
+            _ => None,
+        }
+    }
+}
+
+#[derive(Clone, Debug)]
+struct TCase {
+    topo: Topo,
+    /// bits of `max_imbalance_per_flip`
+    mi: Option<u64>,
+    mp: Option<usize>,
+    mf: Option<usize>,
+    mb: usize,
+    vw: Vec<i64>,
+    ids: Vec<usize>,
+    /// neighbour lists in the order the topology yields them
+    rows: Rows,
+}
+
+fn format_op_t(c: &TCase) -> String {
+    let mut s = format!(
+        "klt {} {} {} {} {} {}",
+        c.topo.name(),
+        c.mi.map_or("-".into(), |b| format!("{:016x}", b)),
+        opt(c.mp),
+        opt(c.mf),
+        c.mb,
+        c.vw.len()
+    );
+    for w in &c.vw {
+        s.push_str(&format!(" {}", w));
+    }
+    s.push_str(&format!(" {}", c.ids.len()));
+    for i in &c.ids {
+        s.push_str(&format!(" {}", i));
+    }
+    s.push_str(&format!(" {}", c.rows.len()));
+    for r in &c.rows {
+        s.push_str(&format!(" {}", r.len()));
+        for (j, w) in r {
+            s.push_str(&format!(" {} {}", j, w));
+        }
+    }
+    s
+}
+
+/// `None` = `bad-op`: unreadable, a neighbour list with a repeated neighbour, a list that is not
+/// strictly increasing under `csv`/`csr` (no such CsMat exists), a row count other than `n` or a
+/// neighbour `>= n` (the malformed matrices are the business of the `kl` stream).
+fn parse_op_t(op: &str) -> Option<TCase> {
+    let mut it = op.split_whitespace();
+    if it.next()? != "klt" {
+        return None;
+    }
+    let topo = Topo::parse(it.next()?)?;
+    let mi = match it.next()? {
+        "-" => None,
+        t if t.len() == 16 => Some(u64::from_str_radix(t, 16).ok()?),
+        _ => return None,
+    };
+    let mp = parse_opt(it.next()?)?;
+    let mf = parse_opt(it.next()?)?;
+    let mb: usize = it.next()?.parse().ok()?;
+    let wn: usize = it.next()?.parse().ok()?;
+    if wn > 1 << 20 {
+        return None;
+    }
+    let mut vw = Vec::with_capacity(wn);
+    for _ in 0..wn {
+        let w: i64 = it.next()?.parse().ok()?;
+        if w.abs() > 1 << 50 {
+            return None;
+        }
+        vw.push(w);
+    }
+    let n: usize = it.next()?.parse().ok()?;
+    let mut ids = Vec::with_capacity(n.min(1 << 20));
+    for _ in 0..n {
+        ids.push(it.next()?.parse().ok()?);
+    }
+    let r: usize = it.next()?.parse().ok()?;
+    if r != n {
+        return None;
+    }
+    let mut rows = Vec::with_capacity(r);
+    for _ in 0..r {
+        let d: usize = it.next()?.parse().ok()?;
+        let mut row: Vec<(usize, i64)> = Vec::with_capacity(d.min(1 << 20));
+        for _ in 0..d {
+            let j: usize = it.next()?.parse().ok()?;
+            let w: i64 = it.next()?.parse().ok()?;
+            if j >= n {
+                return None;
+            }
+            row.push((j, w));
+        }
+        let mut seen: Vec<usize> = row.iter().map(|e| e.0).collect();
+        seen.sort();
+        if seen.windows(2).any(|p| p[0] == p[1]) {
+            return None;
+        }
+        if matches!(topo, Topo::CsView | Topo::CsRef) && row.windows(2).any(|p| p[0].0 >= p[1].0) {
+            return None;
+        }
+        rows.push(row);
+    }
+    if it.next().is_some() {
+        return None;
+    }
+    Some(TCase { topo, mi, mp, mf, mb, vw, ids, rows })
+}
+
+/// A topology as a user of the library would define one: adjacency lists, neighbours in the
+/// stored order (nothing in the trait asks for ascending indices), default `edge_cut`.
+struct UserTopo {
+    rows: Vec<Vec<(usize, f64)>>,
+}
+
+impl coupe::Topology<f64> for UserTopo {
+    type Neighbors<'n> = std::iter::Cloned<std::slice::Iter<'n, (usize, f64)>> where Self: 'n;
+
+    fn len(&self) -> usize {
+        self.rows.len()
+    }
+
+    fn neighbors(&self, vertex: usize) -> Self::Neighbors<'_> {
+        self.rows[vertex].iter().cloned()
+    }
+}
+
+/// The harness's own statement of what a `Grid` is: cell (x, y, z) has index x + W (y + H z),
+/// neighbours in the order x-1, x+1, y-1, y+1, z-1, z+1, unit weights.
+fn grid_rows(dims: &[usize]) -> Rows {
+    let n: usize = dims.iter().product();
+    let mut rows = Vec::with_capacity(n);
+    for v in 0..n {
+        let mut pos = vec![];
+        let mut i = v;
+        for &d in dims {
+            pos.push(i % d);
+            i /= d;
+        }
+        let mut row = vec![];
+        let mut stride = 1;
+        for (a, &d) in dims.iter().enumerate() {
+            if pos[a] > 0 {
+                row.push((v - stride, 1));
+            }
+            if pos[a] + 1 < d {
+                row.push((v + stride, 1));
+            }
+            stride *= d;
+        }
+        rows.push(row);
+    }
+    rows
+}
+
+fn kl_through<T: coupe::Topology<f64> + Sync>(
+    mk: impl Fn() -> T,
+    mut alg: coupe::KernighanLin,
+    ids0: &[usize],
+    weights: &[f64],
+) -> Ran {
+    let mut p = ids0.to_vec();
+    alg.partition(&mut p, (mk(), weights)).unwrap();
+    let t = mk();
+    let before = t.edge_cut(ids0);
+    let after = t.edge_cut(&p);
+    (p, before, after, None)
+}
+
+/// what `neighbors` of the real topology yields, for the comparison with the op's lists
+fn listed<T: coupe::Topology<f64>>(t: &T, n: usize) -> Option<Vec<Vec<(usize, f64)>>> {
+    if t.len() != n {
+        return None;
+    }
+    Some((0..n).map(|v| t.neighbors(v).collect()).collect())
+}
+
+enum RanT {
+    Ran(Caught<Ran>),
+    /// the matrix cannot be built / the op's lists are not those of the named Grid
+    NotThisTopology,
+}
+
+fn run_impl_t(c: &TCase) -> RanT {
+    let n = c.ids.len();
+    let frows: Vec<Vec<(usize, f64)>> =
+        c.rows.iter().map(|r| r.iter().map(|&(j, w)| (j, w as f64)).collect()).collect();
+    let alg = coupe::KernighanLin {
+        max_passes: c.mp,
+        max_flips_per_pass: c.mf,
+        max_imbalance_per_flip: c.mi.map(f64::from_bits),
+        max_bad_move_in_a_row: c.mb,
+    };
+    let weights: Vec<f64> = c.vw.iter().map(|&w| w as f64).collect();
+    let ids0 = c.ids.clone();
+    let secs = 60 + n as u64 / 40;
+    let nz = |d: usize| std::num::NonZeroUsize::new(d).unwrap();
+    match c.topo {
+        Topo::CsView | Topo::CsRef => {
+            let mut indptr = vec![0usize];
+            let mut indices = vec![];
+            let mut data = vec![];
+            for r in &frows {
+                for &(j, w) in r {
+                    indices.push(j);
+                    data.push(w);
+                }
+                indptr.push(indices.len());
+            }
+            let Ok(mat) = CsMat::try_new((n, n), indptr, indices, data) else {
+                return RanT::NotThisTopology;
+            };
+            let by_ref = c.topo == Topo::CsRef;
+            RanT::Ran(on_worker(secs, move || {
+                let view = mat.view();
+                if by_ref {
+                    kl_through(|| &view, alg, &ids0, &weights)
+                } else {
+                    kl_through(|| mat.view(), alg, &ids0, &weights)
+                }
+            }))
+        }
+        Topo::Custom(by_ref) => {
+            let user = UserTopo { rows: frows };
+            RanT::Ran(on_worker(secs, move || {
+                if by_ref {
+                    kl_through(|| &user, alg, &ids0, &weights)
+                } else {
+                    kl_through(|| UserTopo { rows: user.rows.clone() }, alg, &ids0, &weights)
+                }
+            }))
+        }
+        Topo::Grid2(w, h, by_ref) => {
+            let g = coupe::Grid::new_2d(nz(w), nz(h));
+            if w.checked_mul(h) != Some(n) || listed(&g, n) != Some(frows) {
+                return RanT::NotThisTopology;
+            }
+            RanT::Ran(on_worker(secs, move || {
+                if by_ref {
+                    kl_through(|| &g, alg, &ids0, &weights)
+                } else {
+                    kl_through(|| g, alg, &ids0, &weights)
+                }
+            }))
+        }
+        Topo::Grid3(w, h, d, by_ref) => {
+            let g = coupe::Grid::new_3d(nz(w), nz(h), nz(d));
+            if w.checked_mul(h).and_then(|x| x.checked_mul(d)) != Some(n) || listed(&g, n) != Some(frows) {
+                return RanT::NotThisTopology;
+            }
+            RanT::Ran(on_worker(secs, move || {
+                if by_ref {
+                    kl_through(|| &g, alg, &ids0, &weights)
+                } else {
+                    kl_through(|| g, alg, &ids0, &weights)
+                }
+            }))
+        }
+    }
+}
+
+fn run_op_t(ctx: &mut Ctx, op: &str) {
+    let Some(c) = parse_op_t(op) else {
+        ctx.record(op.to_string(), "bad-op".into(), false);
+        return;
+    };
+    let n = c.ids.len();
+    let res = match run_impl_t(&c) {
+        RanT::Ran(r) => r,
+        RanT::NotThisTopology => {
+            ctx.count("klt_not_this_topology");
+            ctx.record(op.to_string(), "bad-op not-this-topology".into(), false);
+            return;
+        }
+    };
+    // the graph, independent of the order of the lists
+    let mut srows = c.rows.clone();
+    for r in srows.iter_mut() {
+        r.sort();
+    }
+    let mut labels: Vec<usize> = c.ids.clone();
+    labels.sort();
+    labels.dedup();
+    let two_way = labels.len() == 2;
+    let mut symmetric = true;
+    let mut positive = true;
+    let mut nedges = 0;
+    for (v, r) in srows.iter().enumerate() {
+        for &(j, w) in r {
+            positive &= w > 0 && j != v;
+            nedges += 1;
+            symmetric &= match srows[j].binary_search_by_key(&v, |e| e.0) {
+                Ok(k) => srows[j][k].1 == w,
+                Err(_) => false,
+            };
+        }
+    }
+    // The contract of the extra inputs: one vertex weight per vertex, none negative; an imbalance
+    // limit, if given, is a non-negative number (or +inf).  Outside of it: counted, not judged.
+    let mi = c.mi.map(f64::from_bits);
+    let contract = c.vw.len() == n && c.vw.iter().all(|&w| w >= 0) && mi.map_or(true, |x| x >= 0.0);
+    let in_scope = two_way && symmetric && positive && contract;
+    let nontrivial = in_scope && nedges > 0;
+
+    let mut verdict: Option<(&str, String)> = None;
+    let out = match res {
+        Caught::Ok((p, before, after, _)) => {
+            let mut a = c.ids.clone();
+            let mut b = p.clone();
+            a.sort();
+            b.sort();
+            if !contract {
+                ctx.count("klt_outside_contract_not_judged");
+            } else if p.len() != n {
+                verdict = Some(("kl-length", format!("{} ids in, {} out", n, p.len())));
+            } else if a != b {
+                verdict = Some((
+                    "kl-part-sizes",
+                    format!("label multiset changed: {} -> {} ({})", short(&c.ids), short(&p), c.topo.kind()),
+                ));
+            } else {
+                let (cb, ca) = (tri_cut(&srows, &c.ids, true), tri_cut(&srows, &p, true));
+                if ca > cb {
+                    verdict = Some((
+                        "kl-cut-increased",
+                        format!(
+                            "edge cut {} -> {} ({} -> {}) through {}, max_imbalance_per_flip {:?}, vertex weights {:?}",
+                            cb,
+                            ca,
+                            short(&c.ids),
+                            short(&p),
+                            c.topo.kind(),
+                            mi,
+                            &c.vw[..c.vw.len().min(40)]
+                        ),
+                    ));
+                } else if cb as f64 != before || ca as f64 != after {
+                    verdict = Some((
+                        "kl-edge-cut-value",
+                        format!("edge_cut reports {} / {}, brute force {} / {} ({})", before, after, cb, ca, c.topo.kind()),
+                    ));
+                }
+                if symmetric {
+                    let up = tri_cut(&srows, &p, false);
+                    if up != ca && verdict.is_none() {
+                        verdict = Some(("kl-oracle-internal", format!("{} vs {}", up, ca)));
+                    }
+                }
+                if p != c.ids {
+                    ctx.count(if ca < cb { "moved_cut_lower" } else { "moved_cut_equal" });
+                    ctx.count(&format!("klt_moved:{}", c.topo.kind()));
+                } else {
+                    ctx.count("unchanged");
+                }
+            }
+            format!("ok {} {} | {}", before as i64, after as i64, join(&p))
+        }
+        Caught::Panic(m) => {
+            if two_way && contract {
+                verdict = Some(("panic", format!("{} [{}] ({})", m, panic_sig(&m), c.topo.kind())));
+            }
+            format!("panic {}", m)
+        }
+        Caught::Hang => {
+            verdict = Some(("hang", format!("watchdog ({} s)", 60 + n / 40)));
+            "hang".into()
+        }
+    };
+    ctx.count(out.split(' ').next().unwrap_or(""));
+    ctx.count(if in_scope { "in_scope" } else { "out_of_scope" });
+    ctx.count(&format!("klt_topology:{}", c.topo.kind()));
+    let idx = ctx.record(op.to_string(), out, nontrivial);
+    if let Some((sig, what)) = verdict {
+        ctx.fail(idx, sig, what);
+    }
+}
+
+// ---- generators of the klt stream
+
+const MI_VALUES: [f64; 10] = [0.0, 0.5, 1.0, 2.0, 2.5, 10.0, 999.0, 1e6, f64::MAX, f64::INFINITY];
+
+fn random_mi(rng: &mut Rng) -> (&'static str, Option<u64>) {
+    match rng.usize(8) {
+        0 | 1 => ("none", None),
+        2 => ("0", Some(0f64.to_bits())),
+        3 | 4 => ("small", Some([0.5f64, 1.0, 2.0, 2.5, 3.0][rng.usize(5)].to_bits())),
+        5 => ("medium", Some((rng.range(4, 1000) as f64 / 2.0).to_bits())),
+        6 => ("large", Some([1e6, 1e15, f64::MAX, f64::INFINITY][rng.usize(4)].to_bits())),
+        _ => ("random_small", Some((rng.range(0, 12) as f64 / 4.0).to_bits())),
+    }
+}
+
+/// vertex weights for a given colouring (0/1 ids before relabelling)
+fn random_vertex_weights(rng: &mut Rng, ids: &[usize]) -> (&'static str, Vec<i64>) {
+    let n = ids.len();
+    match rng.usize(9) {
+        0 => ("unit", vec![1; n]),
+        1 => ("uniform", vec![rng.range(2, 50); n]),
+        2 | 3 => ("1..5", (0..n).map(|_| rng.range(1, 5)).collect()),
+        4 => ("1..1000", (0..n).map(|_| rng.range(1, 1000)).collect()),
+        5 => ("light_heavy", (0..n).map(|_| *rng.pick(&[1, 1, 100])).collect()),
+        6 => {
+            // one part light, the other heavy: every pair differs
+            let (a, b) = (rng.range(1, 3), rng.range(10, 100));
+            ("by_part", ids.iter().map(|&i| if i == 0 { a } else { b }).collect())
+        }
+        7 => {
+            let mut v = vec![1; n];
+            v[rng.usize(n)] = rng.range(2, 1000);
+            ("one_heavy", v)
+        }
+        _ => ("with_zeros", (0..n).map(|_| rng.range(0, 3)).collect()),
+    }
+}
+
+/// the order in which a user-defined topology lists the neighbours
+fn reorder(rng: &mut Rng, rows: &mut Rows) -> &'static str {
+    match rng.usize(4) {
+        0 => "ascending",
+        1 => {
+            for r in rows.iter_mut() {
+                r.reverse();
+            }
+            "descending"
+        }
+        2 => {
+            for r in rows.iter_mut() {
+                rng.shuffle(r);
+            }
+            "shuffled"
+        }
+        _ => {
+            // larger neighbours first, each half ascending (what a mesh reader may produce)
+            for (v, r) in rows.iter_mut().enumerate() {
+                let (lo, hi): (Vec<_>, Vec<_>) = r.iter().partition(|e| e.0 < v);
+                *r = hi.into_iter().chain(lo).collect();
+            }
+            "upper_first"
+        }
+    }
+}
+
+/// colourings of a grid (0/1): splits along an axis, perturbed splits, checkerboard, random
+fn grid_colouring(rng: &mut Rng, dims: &[usize]) -> (&'static str, Vec<usize>) {
+    let n: usize = dims.iter().product();
+    let coord = |v: usize, a: usize| (v / dims[..a].iter().product::<usize>()) % dims[a];
+    let axes: Vec<usize> = (0..dims.len()).filter(|&a| dims[a] >= 2).collect();
+    let split = |rng: &mut Rng| -> Vec<usize> {
+        let a = *rng.pick(&axes);
+        let at = 1 + rng.usize(dims[a] - 1);
+        (0..n).map(|v| usize::from(coord(v, a) >= at)).collect()
+    };
+    match rng.usize(6) {
+        0 | 1 => ("axis_split", split(rng)),
+        2 | 3 => {
+            let mut v = split(rng);
+            for _ in 0..1 + rng.usize(3) {
+                let (a, b) = (rng.usize(n), rng.usize(n));
+                v.swap(a, b);
+            }
+            ("axis_split_perturbed", v)
+        }
+        4 => ("checkerboard", (0..n).map(|v| (0..dims.len()).map(|a| coord(v, a)).sum::<usize>() % 2).collect()),
+        _ => {
+            let (_, v) = random_colouring(rng, n);
+            ("other", v)
+        }
+    }
+}
+
+fn generate_topologies(ctx: &mut Ctx) {
+    // ---- exhaustive: every graph on 4 vertices x every 2-colouring x vertex-weight patterns x
+    //      max_imbalance values x limits; the topology type rotates over the four list-based ones
+    let pairs: Vec<(usize, usize)> = (0..4).flat_map(|a| (a + 1..4).map(move |b| (a, b))).collect();
+    let vws: [[i64; 4]; 4] = [[1, 1, 1, 1], [1, 2, 3, 4], [1, 100, 100, 1], [5, 1, 1, 1]];
+    let mis: [Option<f64>; 5] = [None, Some(0.0), Some(1.0), Some(2.5), Some(1e9)];
+    let lim: [(Option<usize>, Option<usize>, usize); 4] =
+        [(None, None, 1), (None, None, 0), (Some(1), None, 2), (None, Some(1), 1)];
+    let mut k = 0usize;
+    for mask in 0u32..64 {
+        let edges: Vec<_> = pairs
+            .iter()
+            .enumerate()
+            .filter(|(k, _)| mask >> k & 1 == 1)
+            .map(|(i, &(a, b))| (a, b, 1 + (i as i64 * 7 + mask as i64) % 3))
+            .collect();
+        let rows = from_edges(4, &edges);
+        for col in 1u32..15 {
+            let ids: Vec<usize> = (0..4).map(|i| (col >> i & 1) as usize).collect();
+            for vw in &vws {
+                for mi in &mis {
+                    for &(mp, mf, mb) in &lim[..ctx.budget(2, 4)] {
+                        k += 1;
+                        let mut rows = rows.clone();
+                        let topo = match k % 4 {
+                            0 => Topo::CsView,
+                            1 => Topo::CsRef,
+                            2 => {
+                                for r in rows.iter_mut() {
+                                    r.reverse();
+                                }
+                                Topo::Custom(false)
+                            }
+                            _ => {
+                                for r in rows.iter_mut() {
+                                    r.reverse();
+                                }
+                                Topo::Custom(true)
+                            }
+                        };
+                        ctx.count("klt_exhaustive_n4");
+                        let c = TCase { topo, mi: mi.map(f64::to_bits), mp, mf, mb, vw: vw.to_vec(), ids: ids.clone(), rows };
+                        run_op_t(ctx, &format_op_t(&c));
+                    }
+                }
+            }
+        }
+    }
+
+    // ---- exhaustive: small grids x every split along an axis (and, up to 9 / 12 cells, every
+    //      2-colouring) x limits, through Grid / &Grid
+    let mut shapes: Vec<Vec<usize>> = vec![];
+    for w in 1..=4 {
+        for h in 1..=4 {
+            if w * h >= 2 {
+                shapes.push(vec![w, h]);
+            }
+        }
+    }
+    for d in [[2, 2, 2], [3, 2, 2], [2, 3, 2], [2, 2, 3], [3, 3, 2], [2, 3, 3], [3, 3, 3], [4, 2, 1], [1, 2, 4], [4, 4, 2]] {
+        shapes.push(d.to_vec());
+    }
+    let all_colourings_up_to = ctx.budget(9, 12);
+    for dims in &shapes {
+        let n: usize = dims.iter().product();
+        let rows = grid_rows(dims);
+        let mut cols: Vec<Vec<usize>> = vec![];
+        for a in 0..dims.len() {
+            let below: usize = dims[..a].iter().product();
+            for at in 1..dims[a] {
+                cols.push((0..n).map(|v| usize::from((v / below) % dims[a] >= at)).collect());
+                cols.push((0..n).map(|v| usize::from((v / below) % dims[a] < at)).collect());
+            }
+        }
+        let nsplit = cols.len();
+        if n <= all_colourings_up_to {
+            for col in 1u32..(1u32 << n) - 1 {
+                cols.push((0..n).map(|i| (col >> i & 1) as usize).collect());
+            }
+        }
+        for (ci, ids) in cols.iter().enumerate() {
+            let full = ci < nsplit;
+            for mf in [None, Some(1), Some(2), Some(3)] {
+                for mb in 0..3 {
+                    for mp in [None, Some(1)] {
+                        if !full && (mf == Some(3) || mf == Some(1) || mb == 2 || mp.is_some()) {
+                            continue;
+                        }
+                        k += 1;
+                        let by_ref = k % 3 == 0;
+                        let topo = if dims.len() == 2 {
+                            Topo::Grid2(dims[0], dims[1], by_ref)
+                        } else {
+                            Topo::Grid3(dims[0], dims[1], dims[2], by_ref)
+                        };
+                        ctx.count(if full { "klt_grid_axis_splits" } else { "klt_grid_all_colourings" });
+                        let c = TCase { topo, mi: None, mp, mf, mb, vw: vec![1; n], ids: ids.clone(), rows: rows.clone() };
+                        run_op_t(ctx, &format_op_t(&c));
+                    }
+                }
+            }
+        }
+    }
+
+    // ---- random: grids of either dimension through every type that can carry them
+    for _ in 0..ctx.budget(5_000, 60_000) {
+        let dims: Vec<usize> = if ctx.rng.chance(1, 2) {
+            let w = 1 + ctx.rng.usize(7);
+            let h = if w == 1 { 2 + ctx.rng.usize(6) } else { 1 + ctx.rng.usize(7) };
+            vec![w, h]
+        } else {
+            let mut d = vec![1 + ctx.rng.usize(4), 1 + ctx.rng.usize(4), 1 + ctx.rng.usize(4)];
+            if d.iter().product::<usize>() < 2 {
+                d[ctx.rng.usize(3)] = 2;
+            }
+            d
+        };
+        let n: usize = dims.iter().product();
+        let mut rows = grid_rows(&dims);
+        let (cshape, mut ids) = grid_colouring(&mut ctx.rng, &dims);
+        if ids.iter().all(|&x| x == ids[0]) {
+            ids[0] = 1 - ids[0];
+        }
+        let (mp, mut mf, mb) = random_limits(&mut ctx.rng, n);
+        if ctx.rng.chance(1, 3) {
+            mf = Some(1 + ctx.rng.usize(4));
+        }
+        let (mname, mi) = random_mi(&mut ctx.rng);
+        let (wname, vw) = if ctx.rng.chance(1, 2) { ("unit", vec![1; n]) } else { random_vertex_weights(&mut ctx.rng, &ids) };
+        let by_ref = ctx.rng.chance(1, 2);
+        let topo = match ctx.rng.usize(6) {
+            0 => {
+                // the same graph as a matrix
+                for r in rows.iter_mut() {
+                    r.sort();
+                }
+                if by_ref { Topo::CsRef } else { Topo::CsView }
+            }
+            // the same graph, the same order of the lists, user-defined type
+            1 => Topo::Custom(by_ref),
+            _ if dims.len() == 2 => Topo::Grid2(dims[0], dims[1], by_ref),
+            _ => Topo::Grid3(dims[0], dims[1], dims[2], by_ref),
+        };
+        relabel(&mut ctx.rng, &mut ids);
+        ctx.count(&format!("klt_grid_colouring:{}", cshape));
+        ctx.count(&format!("klt_max_imbalance:{}", mname));
+        ctx.count(&format!("klt_vertex_weights:{}", wname));
+        run_op_t(ctx, &format_op_t(&TCase { topo, mi, mp, mf, mb, vw, ids, rows }));
+    }
+
+    // ---- random: weighted symmetric graphs x topology type x list order x max_imbalance x
+    //      vertex weights x limits
+    let maxn = ctx.budget(12, 16);
+    for i in 0..ctx.budget(9_000, 120_000) {
+        let (shape, mut rows) = random_graph(&mut ctx.rng, maxn);
+        let n = rows.len();
+        let (_, mut ids) = random_colouring(&mut ctx.rng, n);
+        let (mp, mf, mb) = random_limits(&mut ctx.rng, n);
+        let (mname, mut mi) = random_mi(&mut ctx.rng);
+        let (wname, mut vw) = random_vertex_weights(&mut ctx.rng, &ids);
+        let topo = match ctx.rng.usize(5) {
+            0 => Topo::CsView,
+            1 => Topo::CsRef,
+            2 | 3 => Topo::Custom(false),
+            _ => Topo::Custom(true),
+        };
+        if let Topo::Custom(_) = topo {
+            let o = reorder(&mut ctx.rng, &mut rows);
+            ctx.count(&format!("klt_list_order:{}", o));
+        }
+        // a small share outside the contract of the extra inputs (counted, not judged)
+        if i % 40 == 7 {
+            match ctx.rng.usize(4) {
+                0 => mi = Some(f64::NAN.to_bits()),
+                1 => mi = Some((-1.0f64).to_bits()),
+                2 => vw[0] = -3,
+                _ => {
+                    vw.truncate(ctx.rng.usize(n));
+                }
+            }
+        }
+        relabel(&mut ctx.rng, &mut ids);
+        ctx.count(&format!("klt_graph:{}", shape));
+        ctx.count(&format!("klt_max_imbalance:{}", mname));
+        ctx.count(&format!("klt_vertex_weights:{}", wname));
+        run_op_t(ctx, &format_op_t(&TCase { topo, mi, mp, mf, mb, vw, ids, rows }));
+    }
+    // every listed max_imbalance value at least once with every vertex-weight shape
+    for x in MI_VALUES {
+        for _ in 0..ctx.budget(20, 200) {
+            let (_, mut rows) = random_graph(&mut ctx.rng, maxn);
+            let n = rows.len();
+            let (_, ids) = random_colouring(&mut ctx.rng, n);
+            let (_, vw) = random_vertex_weights(&mut ctx.rng, &ids);
+            let topo = if ctx.rng.chance(1, 2) { Topo::CsView } else { Topo::Custom(false) };
+            if topo == Topo::Custom(false) {
+                reorder(&mut ctx.rng, &mut rows);
+            }
+            ctx.count(&format!("klt_max_imbalance_value:{:e}", x));
+            let c = TCase { topo, mi: Some(x.to_bits()), mp: None, mf: None, mb: 1 + ctx.rng.usize(2), vw, ids, rows };
+            run_op_t(ctx, &format_op_t(&c));
+        }
+    }
+    ctx.notes.push(
+        "klt stream: the remaining inputs of the call are part of the case - max_imbalance_per_flip (None / 0 / small / large / inf), non-uniform vertex weights, and the type of the topology (CsMatView, &CsMatView, Grid<2>, &Grid<2>, Grid<3>, &Grid<3>, a user-defined Topology by value / by reference with ascending / descending / shuffled / upper-first neighbour lists); exhaustive on all 4-vertex graphs and on all axis splits of small grids".into(),
+    );
 }
